@@ -10,6 +10,7 @@ from ..core import Ctx, construct_key, norm
 from ..load import AnalysisError, Resolver, Scope, dotted, own_nodes, parent
 from ..paths import find_path, held_locks, lexical_withs, must_pass, reach, render
 from ..sym import call_name, enum_paths
+from ..dataflow import resolve, alternatives
 from ..model import carries_exception
 
 A = 'aiuti/asyncio.py'
@@ -274,8 +275,12 @@ def c17(ctx: Ctx) -> None:
                 if n.kind == 'call' and isinstance(n.ast.func, ast.Attribute) and n.ast.func.attr in ('run_until_complete', 'run_forever'):
                     n_run += 1
                     recv = norm(n.ast.func.value)
-                    okl = any(isinstance(i.context_expr, ast.Call) and norm(i.context_expr.func) == '_get_loop_lock'
-                              and [norm(a_) for a_ in i.context_expr.args] == [recv] for i in n.withs)
+                    ctxs = []
+                    for i in n.withs:
+                        we = next((x for x in gc.nodes if x.kind == 'with_enter' and x.meta.get('item') is i), None)
+                        ctxs.append(resolve(gc, we, i.context_expr) if we is not None else i.context_expr)
+                    okl = any(isinstance(c_, ast.Call) and norm(c_.func) == '_get_loop_lock'
+                              and [norm(a_) for a_ in c_.args] == [recv] for c_ in ctxs)
                     ctx.check('C17-R2', f'{c.qualname}: {norm(n.ast)}', gc.loc(n), okl,
                               f'inside `with _get_loop_lock({recv})`', 'a loop can be run by two threads at once (no per-loop lock around running it)',
                               construct=construct_key(c.qualname, 'run without lock', n.ast.func.attr))
@@ -288,31 +293,30 @@ def c17(ctx: Ctx) -> None:
     stores = [n for n in gg.nodes if n.kind == 'store_sub' and isinstance(n.ast.value, ast.Name)]
     if not stores:
         ctx.violation('C17-R3', 'no lock table store', f'{A}:{gl.lineno}', construct=construct_key('_get_loop_lock', 'no store'))
+    u_ = p.unit(A)
+    module_locks = [n.targets[0].id for n in u_.tree.body if isinstance(n, ast.Assign) and isinstance(n.targets[0], ast.Name)
+                    and isinstance(n.value, ast.Call) and Resolver(u_.module_scope).path(n.value.func) in ('threading.Lock', 'threading.RLock')]
+    held_all = held_locks(gg, module_locks)
     for s in stores:
         table = s.ast.value.id
-        lockname = None
-        for i in s.withs:
-            lockname = gg.res.path(i.context_expr)
-        held = held_locks(gg, [lockname]) if lockname else {}
+        hl = [l for l in module_locks if l in held_all[s.id]]
+        lockname = hl[0] if hl else None
+        held = held_all if lockname else {}
         probes = [n for n in gg.nodes if n.kind == 'load_sub' and isinstance(n.ast.value, ast.Name) and n.ast.value.id == table
                   and lockname in held.get(n.id, ())]
-        enters = [n for n in gg.nodes if n.kind == 'with_enter' and gg.res.path(n.ast) == lockname]
+        enters = [n for n in gg.nodes if (n.kind == 'with_enter' and gg.res.path(n.ast) == lockname) or (
+            n.kind == 'call' and isinstance(n.ast.func, ast.Attribute) and n.ast.func.attr == 'acquire'
+            and gg.res.path(n.ast.func.value) == lockname)]
         starts = [e for n in enters for e in gg.succ[n.id] if e.label != 'exc']
         w = must_pass(gg, [], [s], probes, start_edges=starts, edge_ok=lambda e: lockname in held.get(e.dst.id, ())) if lockname else []
-        is_lock = False
-        u = p.unit(A)
-        for n in u.tree.body:
-            if isinstance(n, ast.Assign) and isinstance(n.targets[0], ast.Name) and n.targets[0].id == lockname and isinstance(n.value, ast.Call) \
-                    and Resolver(u.module_scope).path(n.value.func) in ('threading.Lock', 'threading.RLock'):
-                is_lock = True
+        is_lock = lockname in module_locks
         ctx.check('C17-R3', f'{norm(s.meta.get("stmt") or s.ast)} under {lockname} after a locked re-probe', gg.loc(s),
                   lockname is not None and is_lock and w is None and bool(probes),
                   'double-checked creation: one lock per loop', 'two threads can create two different locks for one loop',
                   witness=render(gg, w or None), construct=construct_key('_get_loop_lock', 'creation race'))
-    keyd = [n for n in gg.nodes if n.kind == 'store_name' and isinstance(n.meta.get('value'), ast.Call) and norm(n.meta['value']) == f'id({gl.params[0]})']
-    subs = {norm(n.ast.slice) for n in gg.nodes if n.kind in ('load_sub', 'store_sub')}
+    subs = {norm(resolve(gg, n, n.ast.slice)) for n in gg.nodes if n.kind in ('load_sub', 'store_sub')}
     ctx.check('C17-R3', f'table key {sorted(subs)} = id(<loop argument>)', f'{A}:{gl.lineno}',
-              len(keyd) == 1 and subs == {keyd[0].meta['name']}, 'one entry per loop object', 'the lock is not keyed by the loop',
+              subs == {f'id({gl.params[0]})'}, 'one entry per loop object', 'the lock is not keyed by the loop',
               construct=construct_key('_get_loop_lock', 'key'))
     # R4
     if runner is not None:
@@ -327,23 +331,43 @@ def c17(ctx: Ctx) -> None:
     g2 = build(rat, p)
     rets = [n for n in g2.nodes if n.kind == 'return']
     ok = False
-    if len(rets) == 1 and isinstance(rets[0].ast.value, ast.Await):
-        v = rets[0].ast.value.value
-        if isinstance(v, ast.Call) and g2.res.path(v.func) == 'asyncio.wrap_future' and len(v.args) == 1 and isinstance(v.args[0], ast.Call) \
-                and g2.res.path(v.args[0].func) == 'asyncio.run_coroutine_threadsafe' and len(v.args[0].args) == 2:
-            c0, l0 = v.args[0].args
-            cdef = [n for n in g2.nodes if n.kind == 'store_name' and n.meta['name'] == norm(c0)]
-            shape = False
-            for d in cdef:
-                val = d.meta.get('value')
-                shape = isinstance(val, ast.IfExp) and norm(val.body) == rat.params[0] and isinstance(val.test, ast.Call) \
-                    and g2.res.path(val.test.func) == 'asyncio.iscoroutine' and isinstance(val.orelse, ast.Call) \
-                    and [norm(a_) for a_ in val.orelse.args] == [rat.params[0]]
-                if shape:
-                    w = p.find(A, norm(val.orelse.func))
-                    shape = w is not None and w.is_async and any(
-                        isinstance(x, ast.Return) and isinstance(x.value, ast.Await) and norm(x.value.value) == w.params[0] for x in own_nodes(w.node))
-            ok = norm(l0) == rat.params[1] and (norm(c0) == rat.params[0] or shape)
+
+    def _transparent_wrapper(name: str) -> bool:
+        w = p.find(A, name)
+        if w is None or not w.is_async or len(w.params) != 1:
+            return False
+        gw = build(w, p)
+        rs = [n for n in gw.nodes if n.kind == 'return']
+        return bool(rs) and all(norm(resolve(gw, n, n.ast.value)) == f'await {w.params[0]}' for n in rs) \
+            and not [n for n in gw.nodes if n.kind == 'except']
+    if len(rets) == 1:
+        v = resolve(g2, rets[0], rets[0].ast.value, keep=('coro',))
+        v = resolve(g2, rets[0], rets[0].ast.value)
+        if isinstance(v, ast.Await):
+            v = v.value
+            if isinstance(v, ast.Call) and g2.res.path(v.func) == 'asyncio.wrap_future' and len(v.args) == 1 and isinstance(v.args[0], ast.Call) \
+                    and g2.res.path(v.args[0].func) == 'asyncio.run_coroutine_threadsafe' and len(v.args[0].args) == 2:
+                c0, l0 = v.args[0].args
+                awp_ = rat.params[0]
+
+                def good_coro(e) -> bool:
+                    if e is None:
+                        return False
+                    if norm(e) == awp_:
+                        return True
+                    if isinstance(e, ast.Call) and isinstance(e.func, ast.Name) and [norm(a_) for a_ in e.args] == [awp_]:
+                        return _transparent_wrapper(e.func.id)
+                    if isinstance(e, ast.IfExp):
+                        return good_coro(e.body) and good_coro(e.orelse)
+                    return False
+                if isinstance(c0, ast.Name) and c0.id != awp_:
+                    # the call site of run_coroutine_threadsafe
+                    site = next((n for n in g2.nodes if n.kind == 'call' and g2.res.path(n.ast.func) == 'asyncio.run_coroutine_threadsafe'), rets[0])
+                    alts = alternatives(g2, site, c0.id)
+                    coro_ok = bool(alts) and all(good_coro(a_) for a_ in alts)
+                else:
+                    coro_ok = good_coro(c0)
+                ok = norm(l0) == rat.params[1] and coro_ok
     handlers = [n for n in g2.nodes if n.kind == 'except']
     ctx.check('C17-R4', f'run_aw_threadsafe: {norm(rets[0].ast) if rets else None}', f'{A}:{rat.lineno}', ok and not handlers,
               'submitted to the target loop, bridged back, outcome returned unchanged',
@@ -426,6 +450,12 @@ def _affine_paths(f: Scope):
                     # consumers lists are shared objects; clone values lazily: re-run from scratch instead
                     yield ('fork', norm(s.test), val, branch, stmts[i + 1:])
                 return
+            if isinstance(s, ast.AnnAssign):
+                if s.value is None:
+                    continue
+                s = ast.Assign(targets=[s.target], value=s.value)
+            if isinstance(s, ast.Pass):
+                continue
             if isinstance(s, ast.Assign) and len(s.targets) == 1:
                 v = ev(s.value, env, vals, problems)
                 t = s.targets[0]
@@ -573,7 +603,7 @@ def c18(ctx: Ctx) -> None:
         ctx.check('C18-R4', f'{inst}: eager consumers {[v.kind for v in eager]}', where, not eager, 'lazy', 'the input is consumed eagerly inside split',
                   construct=construct_key('split', 'eager', [v.kind for v in eager]))
         # R2 on the callable path
-        callable_path = any(k.startswith('callable(') and v for k, v in facts.items())
+        callable_path = any((k.startswith('callable(') and v) or (k.startswith('not callable(') and not v) for k, v in facts.items())
         applies = [v for v in vals if (v.kind == 'map' or v.kind.startswith('apply:')) and isinstance(v.args[0], _It)
                    and v.args[0].kind == 'param' and v.args[0].args[0] == cond]
         if callable_path:
@@ -613,6 +643,11 @@ def c18(ctx: Ctx) -> None:
     prm = ex.params[0]
     dq = [n for n in ge.nodes if n.kind == 'call' and ge.res.path(n.ast.func) == 'collections.deque' and n.ast.args and norm(n.ast.args[0]) == prm
           and any(k.arg == 'maxlen' and isinstance(k.value, ast.Constant) and k.value.value == 0 for k in n.ast.keywords)]
+    # `deque(maxlen=0).extend(iterable)`
+    dq += [n for n in ge.nodes if n.kind == 'call' and isinstance(n.ast.func, ast.Attribute) and n.ast.func.attr == 'extend'
+           and n.ast.args and norm(resolve(ge, n, n.ast.args[0])) == prm
+           and isinstance(resolve(ge, n, n.ast.func.value), ast.Call) and ge.res.path(resolve(ge, n, n.ast.func.value).func) == 'collections.deque'
+           and any(k.arg == 'maxlen' and isinstance(k.value, ast.Constant) and k.value.value == 0 for k in resolve(ge, n, n.ast.func.value).keywords)]
     loops = [n for n in ge.nodes if n.kind == 'for_iter' and norm(n.ast.iter) == prm and not [x for x in ge.nodes if x.kind in ('break', 'return') and n.ast in x.loops]]
     rets = [n for n in ge.nodes if n.kind == 'return' and n.ast.value is not None and not (isinstance(n.ast.value, ast.Constant) and n.ast.value.value is None)]
     w = must_pass(ge, [ge.entry], [ge.exit], dq + loops, edge_ok=_nonexc)
@@ -680,7 +715,7 @@ def c19(ctx: Ctx) -> None:
         isinstance(x, ast.Call) and isinstance(x.func, ast.Name) and x.func.id == parse_p for x in ast.walk(c.node))), None)
     if pair is None or tryp is None:
         raise AnalysisError('parse_to_dict helpers (pair splitter / guarded parser) not found')
-    gp = build(pair, p)
+    gp = build(pair, p, inline_nested=False)
     # R1
     splits = [n for n in gp.nodes if n.kind == 'call' and isinstance(n.ast.func, ast.Attribute) and n.ast.func.attr in ('split', 'rsplit', 'partition', 'rpartition')]
     for s in splits:
@@ -743,7 +778,7 @@ def c19(ctx: Ctx) -> None:
                   not hits, 'nothing that evaluates text as code', 'code-evaluating call in the parsing module',
                   construct=construct_key(unit.rel, 'dangerous calls', sorted({h[1] for h in hits})), examined=calls)
     # the only callee applied to input text is the parse parameter
-    gt = build(tryp, p)
+    gt = build(tryp, p, inline_nested=False)
     pcalls = [n for n in gt.nodes if n.kind == 'call' and isinstance(n.ast.func, ast.Name) and n.ast.func.id == parse_p]
     xp = tryp.params[0]
     # R4
@@ -783,10 +818,17 @@ def c19(ctx: Ctx) -> None:
         if neg:
             vt, vf = vf, vt
         def shape(fn):
-            r_ = [x for x in ast.walk(fn) if isinstance(x, ast.Return)]
-            if len(r_) != 1 or not isinstance(r_[0].value, ast.Tuple) or len(r_[0].value.elts) != 2:
+            sc_ = next((c for c in f.children if c.node is fn), None)
+            if sc_ is None:
                 return None
-            k, v = r_[0].value.elts
+            gv = build(sc_, p, inline_nested=False)
+            r_ = [n for n in gv.nodes if n.kind == 'return']
+            if len(r_) != 1:
+                return None
+            rv = resolve(gv, r_[0], r_[0].ast.value)
+            if not isinstance(rv, ast.Tuple) or len(rv.elts) != 2:
+                return None
+            k, v = rv.elts
             a0, a1 = fn.args.args[0].arg, fn.args.args[1].arg
             def cls(e, a):
                 if isinstance(e, ast.Name) and e.id == a:
@@ -803,14 +845,15 @@ def c19(ctx: Ctx) -> None:
         same_name = vt is not None and vf is not None and vt.name == vf.name
         calls_pt = [n for n in gp.nodes if n.kind == 'call' and isinstance(n.ast.func, ast.Name) and vt is not None and n.ast.func.id == vt.name]
         rets_p = [n for n in gp.nodes if n.kind == 'return']
-        okp = same_name and len(calls_pt) == len(rets_p) >= 1 and all(isinstance(r_.ast.value, ast.Call) and r_.ast.value.func.id == vt.name for r_ in rets_p)
+        okp = same_name and len(calls_pt) == len(rets_p) >= 1 and all(
+            isinstance(resolve(gp, r_, r_.ast.value), ast.Call) and norm(resolve(gp, r_, r_.ast.value).func) == vt.name for r_ in rets_p)
         ctx.check('C19-R6', f'{pair.name} returns {vt.name if vt else None}(...) on every path', f'{PA}:{pair.lineno}', okp,
                   'string and tuple items go through the same tuple parser', 'an input shape bypasses the parser',
                   construct=construct_key(pair.qualname, 'pipeline'))
     # R6
     g = build(f, p)
     items_p = f.params[0]
-    conv = [n for n in g.nodes if n.kind == 'store_name' and n.meta['name'] == items_p and isinstance(n.meta.get('value'), ast.Call)
+    conv = [n for n in g.nodes if n.kind == 'store_name' and isinstance(n.meta.get('value'), ast.Call)
             and norm(n.meta['value']) == f'{items_p}.items()']
     okc = False
     for c in conv:
@@ -818,7 +861,15 @@ def c19(ctx: Ctx) -> None:
         ee = [e for n in call for e in g.succ[n.id] if e.label == 'exc']
         okc = bool(ee) and all(e.dst.kind == 'except' and set(e.dst.meta.get('classes', ())) == {'AttributeError'} for e in ee)
     rets = [n for n in g.nodes if n.kind == 'return']
-    okd = len(rets) == 1 and norm(rets[0].ast.value) == f'dict(map({pair.name}, {items_p}))'
+    okd = False
+    if len(rets) == 1:
+        rv = rets[0].ast.value
+        if isinstance(rv, ast.Call) and norm(rv.func) == 'dict' and len(rv.args) == 1 and isinstance(rv.args[0], ast.Call) \
+                and norm(rv.args[0].func) == 'map' and len(rv.args[0].args) == 2 and norm(rv.args[0].args[0]) == pair.name \
+                and isinstance(rv.args[0].args[1], ast.Name):
+            src = rv.args[0].args[1].id
+            alts = {norm(a_) if a_ is not None else items_p for a_ in alternatives(g, rets[0], src)} if conv else set()
+            okd = alts == {f'{items_p}.items()', items_p} or (src == items_p and alts <= {f'{items_p}.items()', items_p} and f'{items_p}.items()' in alts)
     ctx.check('C19-R6', f'{[norm(c.meta["stmt"]) for c in conv]} ; return {norm(rets[0].ast.value) if rets else None}', where, okc and okd,
               'mappings become item pairs (only AttributeError tolerated), every item goes through the pair parser',
               'mappings, pair sequences and strings do not share one pipeline', construct=construct_key('parse_to_dict', 'pipeline'))
@@ -861,20 +912,17 @@ def c20(ctx: Ctx) -> None:
     loops = [n for n in g.nodes if n.kind == 'for_iter']
     okl = False
     if len(loops) == 1:
-        it = loops[0].ast.iter
-        okl = isinstance(it, ast.Await) and it.value is c
-        if isinstance(it, ast.Name):
-            defs = [n for n in g.nodes if n.kind == 'store_name' and n.meta['name'] == it.id]
-            okl = len(defs) == 1 and isinstance(defs[0].meta.get('value'), ast.Await) and defs[0].meta['value'].value is c
+        it = resolve(g, loops[0], loops[0].ast.iter)
+        okl = isinstance(it, ast.Await) and norm(it.value) == norm(c)
     ctx.check('C20-R2', f'for ... in {norm(loops[0].ast.iter) if loops else None}', g.loc(loops[0]) if loops else where, okl,
               'results visited in input order', 'the results are re-ordered / filtered before the loop (sorted, reversed, set, as_completed)',
               construct=construct_key('gather_excs', 'iteration'))
     ys = [n for n in g.nodes if n.kind == 'yield']
     lv = norm(loops[0].ast.target) if loops else None
     for y in ys:
-        isb = [n for n in g.nodes if n.kind == 'branch' and norm(n.meta['test']) == f'isinstance({lv}, {onlyp})']
+        isb = [n for n in g.nodes if n.kind == 'branch' and norm(resolve(g, n, n.meta['test'])) == f'isinstance({lv}, {onlyp})']
         w = find_path(g, [g.entry], [y], edge_ok=lambda e: not (e.src in isb and e.label == 'true'))
-        ctx.check('C20-R3', f'{norm(y.ast)} if isinstance({lv}, {onlyp})', g.loc(y), w is None and bool(isb) and norm(y.ast.value) == lv,
+        ctx.check('C20-R3', f'{norm(y.ast)} if isinstance({lv}, {onlyp})', g.loc(y), w is None and bool(isb) and norm(resolve(g, y, y.ast.value)) == lv,
                   'subclass-inclusive filter, the exception itself is yielded',
                   'the filter is not isinstance(res, only) (exact-type / equality tests miss subclasses) or something else is yielded',
                   witness=render(g, w), construct=construct_key('gather_excs', 'filter'))
@@ -890,7 +938,7 @@ def c20(ctx: Ctx) -> None:
     fl = [n for n in g2.nodes if n.kind == 'for_iter' and n.meta.get('is_async')]
     ok = False
     if len(fl) == 1:
-        it = fl[0].ast.iter
+        it = resolve(g2, fl[0], fl[0].ast.iter)
         ok = isinstance(it, ast.Call) and norm(it.func) == 'gather_excs' and [norm(a_) for a_ in it.args] == [r.params[0], r.params[1]] and not it.keywords
         ok = ok or (isinstance(it, ast.Call) and norm(it.func) == 'gather_excs' and [norm(a_) for a_ in it.args] == [r.params[0]]
                     and [(k.arg, norm(k.value)) for k in it.keywords] == [('only', r.params[1])])
@@ -898,7 +946,7 @@ def c20(ctx: Ctx) -> None:
         raises = [n for n in g2.nodes if n.kind == 'raise' and fl[0].ast in n.loops]
         first = [e for e in g2.succ[fl[0].id] if e.label == 'true']
         w = must_pass(g2, [], [fl[0], g2.exit], raises, start_edges=first, edge_ok=_nonexc)
-        ok = ok and len(raises) >= 1 and all(norm(x.ast.exc) == tv for x in raises) and w is None
+        ok = ok and len(raises) >= 1 and all(norm(resolve(g2, x, x.ast.exc)) == tv for x in raises) and w is None
     rets = [n for n in g2.nodes if n.kind == 'return' and n.ast.value is not None and not (isinstance(n.ast.value, ast.Constant) and n.ast.value.value is None)]
     # no other consumer of the awaitables: every path to the exit goes through the gather_excs loop, and
     # the parameter is used nowhere else
